@@ -267,7 +267,7 @@ class RedlineEngine:
             if not anchor_run:
                 return None
 
-            current_p = anchor_run._element.getparent()
+            current_p = self._enclosing_paragraph(anchor_run._element)
             if current_p is None and hasattr(anchor_run, "_parent"):
                 current_p = getattr(anchor_run._parent, "_element", None)
 
@@ -338,7 +338,7 @@ class RedlineEngine:
             if not anchor_run:
                 return ins_elem
 
-            current_p_element = anchor_run._element.getparent()
+            current_p_element = self._enclosing_paragraph(anchor_run._element)
             if current_p_element is None and hasattr(anchor_run, "_parent"):
                 current_p_element = getattr(anchor_run._parent, "_element", None)
 
@@ -381,6 +381,14 @@ class RedlineEngine:
                 parent_body.insert(p_index + 1 + i, new_p)
 
         return ins_elem
+
+    @staticmethod
+    def _enclosing_paragraph(element):
+        """The w:p that contains `element` (a run may sit inside w:ins / w:del); None if detached."""
+        current = element.getparent()
+        while current is not None and current.tag != qn("w:p"):
+            current = current.getparent()
+        return current
 
     def _apply_run_props(self, run_element, props: Dict[str, Any], suppress_inherited: bool = False) -> None:
         """
@@ -804,8 +812,12 @@ class RedlineEngine:
             if not anchor_run:
                 return False
 
-            parent = anchor_run._element.getparent()
-            index = parent.index(anchor_run._element)
+            anchor_el = anchor_run._element
+            parent = anchor_el.getparent()
+            if parent is not None and parent.tag in (qn("w:ins"), qn("w:del")):
+                # Never place a revision mark inside another one: go next to the enclosing mark.
+                anchor_el, parent = parent, parent.getparent()
+            index = parent.index(anchor_el)
 
             if insert_before:
                 ins_elem = self.track_insert(final_new_text, anchor_run=anchor_run, comment=edit.comment)
